@@ -38,8 +38,9 @@ class AXILMaster:
     max_out: outstanding requests per direction; p_*: per-cycle probability to start offering;
     b_ready / r_ready: schedules for response acceptance. After `coop_from` everything is eager."""
     def __init__(self, bus, writes, reads, rng, order="together", max_out=1, p_aw=1.0, p_w=1.0, p_ar=1.0,
-                 b_sched=None, r_sched=None, coop_from=10**9, garbage=True, name="m", prot=0, with_id=False):
+                 b_sched=None, r_sched=None, coop_from=10**9, garbage=True, name="m", prot=0, with_id=False, hold_next_addr=False):
         self.bus, self.rng, self.name = bus, rng, name
+        self.hold_next_addr = hold_next_addr      # while AW is idle its address lines already carry the next write's address
         self.writes, self.reads = writes, reads
         self.order, self.max_out = order, max_out
         self.p_aw, self.p_w, self.p_ar = p_aw, p_w, p_ar
@@ -99,6 +100,8 @@ class AXILMaster:
                 self.aw_lead = rng.randint(1, 6) if self.order == "aw_first" else 0
             else:
                 self.aw.idle(w, g)
+                if self.hold_next_addr and self.aw_off < nw:
+                    w[b.aw.addr] = self.writes[self.aw_off]["addr"]
         if self.w.offering is None:
             i = self.w_off
             can = i < nw and (i - self.b_i) < self.max_out
